@@ -2,6 +2,7 @@
 """C05 - handlers bind each parameter from its declared source and enforce requiredness."""
 import copy
 import json
+import re
 import os
 import random
 import shutil
@@ -75,7 +76,7 @@ def main():
     else:
         projects = []
         while len(projects) < n:
-            p = P.gen_project(rng, {"security": False, "params": True, "multipkg": True, "enums": True})
+            p = P.gen_project(rng, {"security": False, "params": True, "multipkg": True, "enums": True, "blank_validators": True})
             if len(set(c["name"] for c in p["controllers"])) != len(p["controllers"]):
                 continue
             projects.append(p)
@@ -111,6 +112,22 @@ def main():
                 "deprecated": False, "security": [], "ret": "string", "errtype": "error", "response": None, "errors": [],
                 "descr": "", "file": 0, "params": [gp("first"), gp("middle"), gp("last"), gp("nick")],
                 "groups": [[0, 1, 2], [3]]})
+        for oi, (loc, val) in enumerate([("query", "oneof=abc xyz"), ("header", "required,oneof=abc def ghi"),
+                                         ("path", "oneof=abc xyz"), ("form", "oneof='abc' 'x y'")]):
+            gc["methods"].append({
+                "name": "One%d" % oi, "verb": "POST" if loc == "form" else "GET",
+                "route": "/one%d" % oi + ("/{s}" if loc == "path" else ""), "hidden": False, "deprecated": False, "security": [],
+                "ret": "string", "errtype": "error", "response": None, "errors": [], "descr": "", "file": 0,
+                "params": [{"name": "s", "ctx": False, "loc": loc, "alias": None, "type": "string", "pointer": False,
+                            "validator": val, "slice": False}]})
+        for bi, ptr in enumerate((False, True)):
+            gc["methods"].append({
+                "name": "Bod%d" % bi, "verb": "POST", "route": "/bod%d" % bi, "hidden": False, "deprecated": False, "security": [],
+                "ret": "string", "errtype": "error", "response": None, "errors": [], "descr": "", "file": 0,
+                "params": [{"name": "n", "ctx": False, "loc": "query", "alias": None, "type": "int", "pointer": False,
+                            "validator": None, "slice": False},
+                           {"name": "b", "ctx": False, "loc": "body", "alias": None, "type": "Item", "pointer": ptr,
+                            "validator": None if ptr else "required", "slice": False}]})
         projects.append(grp)
     moddir, results = R.generate_routes(PROP, projects)
 
@@ -185,6 +202,40 @@ def main():
                                           "method": m["name"], "label": "valid", "tags": {"values": values}, "request": rq,
                                           "script": {}, "engine": e})
     outs = h.run(reqs) if reqs else []
+    # ---- body parameters: the request body must be ONE JSON document of the declared type
+    breqs, bmeta, bhrows = [], [], []
+    for k, p in enumerate(chosen):
+        for c in p["controllers"]:
+            for m in c["methods"]:
+                params = m["params"]
+                if not any((not x["ctx"]) and x["loc"] == "body" for x in params):
+                    continue
+                tmpl = C12.collapse(c["route"] + m["route"])
+                base = {x["name"]: ([C12.valid_value(x)] * 2 if x.get("slice") else
+                                    {"Color": "red", "Shade": "dark", "Tone": "warm", "Level": "1"}.get(x["type"], C12.valid_value(x)))
+                        for x in params if not x["ctx"] and x["loc"] != "body"}
+                for b in ("valid", "missing", "malformed", "trailing", "twodocs", "whitespace"):
+                    rq = C12.build_request(m["verb"], tmpl, params, base, body=b)
+                    for e in R.ENGINES:
+                        if not h.usable(k, e):
+                            continue
+                        breqs.append(dict(rq, project=k, engine=e, script={}))
+                        bmeta.append((k, c["name"], m["name"], e, b))
+                        bhrows.append({"key": [k, c["name"], m["name"], "body", b], "project": k, "controller": c["name"],
+                                       "method": m["name"], "label": "body-" + b, "tags": {"values": base}, "request": rq,
+                                       "script": {}, "engine": e})
+    bouts = h.run(breqs) if breqs else []
+    nbody = 0
+    for (k, cn, mn, e, b), o in zip(bmeta, bouts):
+        if b in ("malformed", "trailing", "twodocs", "whitespace") and (o["calls"] or o["status"] != 422):
+            nbody += 1
+            if nbody <= 2:
+                res.violation({"kind": "property-fails-on-implementation", "engine": e, "input": chosen[k], "controller": cn,
+                               "method": mn, "body_kind": b, "request": {kk: breqs[bmeta.index((k, cn, mn, e, b))][kk]
+                                                                          for kk in ("method", "path", "query", "headers", "form", "body")},
+                               "observed": o,
+                               "claim": "a request body that is not one JSON document of the declared type is answered 422 and the "
+                                        "method is not invoked (nothing is bound from a prefix of it)"})
     rows = []
     for i, ((k, cn, mn, e, pi, prm, kind, v), o) in enumerate(zip(rmeta, outs)):
         invoked = len(o["calls"]) == 1 and o["calls"][0]["method"] == mn
@@ -195,6 +246,24 @@ def main():
             i, COQ_PRIM[prm["type"]], coq_option(v, coq_bytes), coq_bool(required), coq_bool(invoked),
             coq_bool(invoked and arg is None), o["status"], "(Some %s)" % got if got else "None",
             coq_bool(bool(prm["validator"]) and prm["validator"] != "required")))
+    # a value that is literally one of the options of the parameter's `oneof=` rule must reach the method
+    noneof = 0
+    for i, ((k, cn, mn, e, pi, prm, kind, v), o) in enumerate(zip(rmeta, outs)):
+        val = prm["validator"] or ""
+        if kind != "value" or "oneof=" not in val or prm["type"] != "string":
+            continue
+        opts_ = re.findall(r"'([^']*)'|(\S+)", val.split("oneof=", 1)[1].split(",", 1)[0])
+        options = [a or b for a, b in opts_]
+        invoked = len(o["calls"]) == 1 and o["calls"][0]["method"] == mn
+        if (v in options) != invoked or (v not in options and o["status"] != 422):
+            noneof += 1
+            if noneof <= 2:
+                res.violation({"kind": "property-fails-on-implementation", "engine": e, "input": chosen[k], "controller": cn,
+                               "method": mn, "parameter": prm, "sent": v, "declared_options": options,
+                               "request": {kk: reqs[i][kk] for kk in ("method", "path", "query", "headers", "form", "body")},
+                               "observed": o,
+                               "claim": "the handler enforces the validator that was declared: a value among the options of "
+                                        "`oneof=` is passed to the method, any other value is answered 422"})
     bad = []
     SH = 800
     for lo in range(0, len(rows), SH):
@@ -233,7 +302,10 @@ def main():
     # ---- (3) whole requests against the engine-independent handler model (Handler.handle)
     for r_, o_ in zip(hrows, outs):
         r_["raw"] = o_
-    hstats = handlermodel.handler_leg(res, PROP, chosen, hrows)
+    for r_, o_ in zip(bhrows, bouts):
+        r_["raw"] = o_
+    hstats = handlermodel.handler_leg(res, PROP, chosen, hrows + bhrows)
+    hstats["body_requests_x_engines"] = len(breqs)
     h.cleanup()
     res.coverage["obligations"] = res.coverage.get("obligations", 0) + len(meta)
     res.coverage["discharged"] = res.coverage.get("discharged", 0) + len([1 for m_ in meta if m_[2] == "ok"]) - len(failing)
